@@ -135,6 +135,8 @@ Section Steps.
         | None => ONorm st ls1
         | Some _ => match st1 with v :: _ => ONorm (v :: st) ls1 | [] => OStuck end
         end
+    | OBr O ls1 => match bt with None => ONorm st ls1 | Some _ => OStuck end
+    | OBr (S n) ls1 => OBr n ls1
     | o => o
     end.
   Proof. reflexivity. Qed.
